@@ -172,6 +172,48 @@ def expected : List Val × Option (Fail Exc) → Seen Val Exc
   | (vs, some (.raised e)) => .stream vs (some e)
   | (_, some (.gate e)) => .submitRaised e
 
+/-- One step of a client PROGRAM over several BatchProxy objects that share one Proxy (client.py:571-628):
+    `record i c`  = `bp_i.<name>(args)`          (_BatchedRemoteMethod.__call__ appends to bp_i's own list)
+    `copy i`      = `copy.copy(bp_i)`            (BatchProxy.__copy__: a NEW BatchProxy on the same Proxy whose list
+                                                  is a copy — `list(self.__calls)` — of bp_i's list at that moment)
+    `submit i ow` = `bp_i()` / `bp_i(oneway=True)` (BatchProxy.__call__: submits bp_i's list, then starts over with `[]`)
+    Proxies are numbered in order of creation; number 0 exists at the start. -/
+inductive BOp (Name Arg : Type) where
+  | record (i : Nat) (c : Name × Arg)
+  | copy (i : Nat)
+  | submit (i : Nat) (oneway : Bool)
+  deriving Repr, DecidableEq
+
+/-- `lists[i]` = the calls recorded on BatchProxy `i` and not yet submitted.  Lists are VALUES: recording on one
+    BatchProxy never shows in another one, a copy starts with the same calls and is independent from then on.
+    Returns the final state of the remote object and what the caller saw at every `submit`, in program order.
+    (client.py:619-620: the list is cleared after `_pyroInvokeBatch` returned; when the submission itself raises, the
+    assignment is skipped and the BatchProxy keeps its calls — programs that use a BatchProxy again after such a
+    failure are outside this function's domain, the harness never generates them.) -/
+def runProg (pre : Option Exc) (o : Obj St Name Arg Val Exc) :
+    St → List (List (Name × Arg)) → List (BOp Name Arg) → St × List (Seen Val Exc)
+  | s, _, [] => (s, [])
+  | s, lists, .record i c :: ops => runProg pre o s (lists.modify i (· ++ [c])) ops
+  | s, lists, .copy i :: ops => runProg pre o s (lists ++ [lists.getD i []]) ops
+  | s, lists, .submit i ow :: ops =>
+    match clientBatch pre o ow s (lists.getD i []) with
+    | (s', seen) =>
+      match runProg pre o s' (lists.set i []) ops with
+      | (s'', rest) => (s'', seen :: rest)
+
+/-- The reference for programs: every `submit` is replaced by the one-by-one run of exactly the calls recorded on
+    that BatchProxy (with what C11 promises the caller), everything else as in `runProg`. -/
+def specProg (o : Obj St Name Arg Val Exc) :
+    St → List (List (Name × Arg)) → List (BOp Name Arg) → St × List (Seen Val Exc)
+  | s, _, [] => (s, [])
+  | s, lists, .record i c :: ops => specProg o s (lists.modify i (· ++ [c])) ops
+  | s, lists, .copy i :: ops => specProg o s (lists ++ [lists.getD i []]) ops
+  | s, lists, .submit i ow :: ops =>
+    match sequential o s (lists.getD i []) with
+    | (s', r) =>
+      match specProg o s' (lists.set i []) ops with
+      | (s'', rest) => (s'', (if ow then Seen.nothing else expected r) :: rest)
+
 /-- Instrumentation used by the trace theorem and by the driver: the same object, additionally
     recording every call that reached the method (i.e. every executed call) in order. -/
 def withLog (o : Obj St Name Arg Val Exc) : Obj (St × List (Name × Arg)) Name Arg Val Exc where
